@@ -22,6 +22,7 @@ import (
 	"net/http"
 	"net/http/httptest"
 	"net/url"
+	"slices"
 	"strings"
 	"time"
 
@@ -353,7 +354,7 @@ func (w *World) newProvider() (*provider.Provider, error) {
 		case "WithClientCredentialsGrant":
 			opts = append(opts, provider.WithClientCredentialsGrant())
 		case "WithRefreshTokenGrant":
-			opts = append(opts, provider.WithRefreshTokenGrant(func(*goidc.Client, goidc.GrantInfo) bool { return true }, o.Z))
+			opts = append(opts, provider.WithRefreshTokenGrant(issuePolicy(o.S), o.Z))
 		case "WithRefreshTokenRotation":
 			opts = append(opts, provider.WithRefreshTokenRotation())
 		case "WithJWTBearerGrant":
@@ -495,6 +496,22 @@ func (w *World) newProvider() (*provider.Provider, error) {
 		return nil, err
 	}
 	return &p, nil
+}
+
+// issuePolicy: the ShouldIssueRefreshTokenFunc of the world (Model/Types.v issue_pol).  The last two are
+// the shapes the library's documentation suggests and are not constant over the life of a grant.
+func issuePolicy(kind string) goidc.ShouldIssueRefreshTokenFunc {
+	switch kind {
+	case "", "IssueAlways":
+		return func(*goidc.Client, goidc.GrantInfo) bool { return true }
+	case "IssueIfOffline":
+		return func(_ *goidc.Client, gi goidc.GrantInfo) bool {
+			return slices.Contains(strings.Fields(gi.ActiveScopes), "offline_access")
+		}
+	case "IssueCodeOnly":
+		return func(_ *goidc.Client, gi goidc.GrantInfo) bool { return gi.GrantType == goidc.GrantAuthorizationCode }
+	}
+	panic("unknown issue policy " + kind)
 }
 
 var _ = bytes.NewBuffer
